@@ -19,6 +19,8 @@ package jsonparser
 //@   onstore ID
 //@     requires idparsed == 1 && *value == idres [C09.dec.id.full.uint64.range]
 //@   loop 4 invariant k >= start && k < end && end < len(data) && start >= 0
+//@   ensures err == nil && header.ID != nil ==> len(buf) == 0 || buf[0] < 48 || buf[0] > 57 [C09.dec.id.takes.all.digits]
+//@   ensures err == nil ==> len(header.Namespace) >= 1 [C09.dec.namespace.nonempty]
 //@   ensures maxmake() <= max(old(maxmake()), len(data) + 2) [C10.hdr.alloc]
 //@   ensures err == nil ==> header != nil && header.Attachments >= 0 [C10.hdr.att]
 //@   ensures err == nil && header.Type != 5 && header.Type != 6 ==> header.Attachments == 0 [C10.hdr.att.nonbinary]
